@@ -464,9 +464,42 @@ def r7_nodetype(chk, rule='C06.R7'):
         chk.ob(rule, '%s/kind' % m, bool(rets) and all(norm(x.value.elts[0]) == want for x in rets), where(mod, f2),
                '%s must declare kind %s' % (m, want))
     o3, gr = ci.find_method('genRow')
-    ok = any("'_symtable_rows'" in norm(x) and "'row'" in norm(x) for x in walk_no_nested(gr) if isinstance(x, ast.Return))
-    chk.ob(rule, 'genRow/kind', ok, where(mod, gr), 'a SYNTAX naming a row type must be classified row through the '
-                                                     'symbol table row list')
+    cnd = common.as_conditional(gr)
+    dpar = gr.args.args[1].arg
+    ok = False
+    detail = 'genRow must end in a two-way choice (row / simple syntax)'
+    if cnd:
+        t, a, b = cnd
+        rowvars = [s.targets[0].id for s in walk_no_nested(gr) if isinstance(s, ast.Assign) and
+                   isinstance(s.targets[0], ast.Name) and isinstance(s.value, ast.Call) and
+                   common.is_self_attr(s.value.func, 'transOpers')]
+        okt = isinstance(t, ast.Compare) and len(t.ops) == 1 and isinstance(t.ops[0], ast.In) and \
+            isinstance(t.left, ast.Name) and t.left.id in rowvars and \
+            norm(t.comparators[0]) == "self.symbolTable[self.moduleName[0]]['_symtable_rows']"
+        oka = norm(a) == "('row', '')"
+        okb = norm(b) == 'self.genSimpleSyntax(%s)' % dpar
+        ok = okt and oka and okb
+        detail = 'genRow decides `%s` ? %s : %s - expected <normalised type name> in symbolTable[own module]' \
+                 '["_symtable_rows"] ? ("row", "") : self.genSimpleSyntax(%s)' % (norm(t)[:70], norm(a), norm(b)[:40], dpar)
+    chk.ob(rule, 'genRow/kind', ok, where(mod, gr), detail)
+    # the symbol-table sibling decides the same way over the rows it collected itself
+    sci = model.cls(ir.SYMTAB, 'SymtableCodeGen')
+    o4, sgr = sci.find_method('genRow')
+    cnd = common.as_conditional(sgr)
+    ok = False
+    detail = 'SymtableCodeGen.genRow must end in a two-way choice (row / simple syntax)'
+    if cnd:
+        t, a, b = cnd
+        rowvars = [s_.targets[0].id for s_ in walk_no_nested(sgr) if isinstance(s_, ast.Assign) and
+                   isinstance(s_.targets[0], ast.Name) and isinstance(s_.value, ast.Call) and
+                   common.is_self_attr(s_.value.func, 'transOpers')]
+        okt = isinstance(t, ast.Compare) and len(t.ops) == 1 and isinstance(t.ops[0], ast.In) and \
+            isinstance(t.left, ast.Name) and t.left.id in rowvars and norm(t.comparators[0]) == 'self._rows'
+        oka = norm(a) == "(('MibTableRow', ''), '')"
+        okb = norm(b).startswith('self.genSimpleSyntax(%s' % sgr.args.args[1].arg)
+        ok = okt and oka and okb
+        detail = 'SymtableCodeGen.genRow decides `%s` ? %s : %s' % (norm(t)[:60], norm(a), norm(b)[:40])
+    chk.ob(rule, 'SymtableCodeGen.genRow/kind', ok, where(sci.mod, sgr), detail)
 
 
 REFERENCE_PRODUCTIONS = set([
@@ -492,5 +525,26 @@ def r9_collectors(chk):
 
 
 
+
+def r_absent_values_C06_R10(chk):
+    """optional clause parts are used where they are present, not where they are absent"""
+    common.no_value_taken_from_an_absent_operand(chk, 'C06.R10', ['pysmi/codegen/intermediate.py', 'pysmi/codegen/symtable.py'], floor=2)
+
+
+
+def r11_generators_start_clean(chk):
+    """shared with C12.R2"""
+    from rules.C12 import r2_generator_reset
+    common.reuse(chk, r2_generator_reset, ('C12.R2',), 'C06.R11', 'both generators re-initialise, at the start of genCode, every attribute their handlers write and assign the per-call settings on every path (C12.R2): a stale import map attributes index / object references of this module to a module an earlier one imported from', floor=12)
+
+
+
+def r12_names_are_case_sensitive(chk):
+    """an INDEX / OBJECTS member called ipAddress is an object reference, not the type keyword IpAddress"""
+    common.names_are_case_sensitive(chk, 'C06.R12', ['pysmi/codegen/intermediate.py', 'pysmi/codegen/symtable.py',
+                                                     'pysmi/codegen/base.py', 'pysmi/codegen/pysnmp.py',
+                                                     'pysmi/codegen/jsondoc.py'], floor=4)
+
+
 RULES = [r1_normalisation, r2_table_index, r3_object_lists, r4_compliances, r5_grammar_pairs, r6_template, r7_nodetype,
-         r8_references_reach_the_tree, r9_collectors]
+         r8_references_reach_the_tree, r9_collectors, r_absent_values_C06_R10, r11_generators_start_clean, r12_names_are_case_sensitive]
